@@ -8981,6 +8981,79 @@ def frag_chainlindblad(src):
 # end of ChainLindblad
 
 
+# ---------------------------------------------------------------------------
+# DynamicsAdd (C13): the order of index lookup and insertions in Dynamics.add and
+# MeanFieldDynamics.add
+# ---------------------------------------------------------------------------
+
+@fragment("DynamicsAdd")
+def frag_dynamics_add(src):
+    out = ["""/-- one bookkeeping statement of an `add` method: look up the insertion index in a list,
+    or insert into a list at the index found before -/
+inductive AddOp where
+  | find (list : String)
+  | insert (list : String)
+  | delegate            -- `system_dynamics.add(time, state)` for every system (MeanFieldDynamics)
+  deriving DecidableEq, Repr
+"""]
+    for qual, name in (("Dynamics.add", "dynamics_add_ops"),
+                       ("MeanFieldDynamics.add", "mfd_add_ops")):
+        fn = src.function("oqupy/dynamics.py", qual)
+        ops = []
+
+        def visit(stmts):
+            for st in stmts:
+                if isinstance(st, ast.Expr) and isinstance(st.value, ast.Constant):
+                    continue
+                text = ast.unparse(st)
+                if isinstance(st, ast.Assign) and isinstance(st.value, ast.Call) \
+                        and attr_chain(st.value.func) == ["_find_list_index"]:
+                    if ast.unparse(st.targets[0]) != "index":
+                        raise Untranslatable(qual + ": index variable is not `index`")
+                    lst = attr_chain(st.value.args[0])
+                    if not lst or lst[0] != "self" or ast.unparse(st.value.args[1]) != "tmp_time":
+                        raise Untranslatable(qual + ": unexpected _find_list_index arguments")
+                    ops.append('.find "%s"' % lst[-1])
+                    continue
+                if isinstance(st, ast.Expr) and isinstance(st.value, ast.Call):
+                    ch = attr_chain(st.value.func)
+                    if ch and ch[0] == "self" and ch[-1] == "insert":
+                        if ast.unparse(st.value.args[0]) != "index":
+                            raise Untranslatable(qual + ": insert position is not `index`")
+                        ops.append('.insert "%s"' % ch[-2])
+                        continue
+                    if ch and ch[-1] == "add" and ch[0] == "system_dynamics":
+                        ops.append(".delegate")
+                        continue
+                if isinstance(st, ast.For):
+                    visit(st.body)
+                    continue
+                if isinstance(st, ast.If):
+                    # bookkeeping of shapes / creation of the per-system Dynamics: must not touch the lists
+                    for n in ast.walk(st):
+                        if isinstance(n, ast.Call) and attr_chain(n.func) and \
+                                attr_chain(n.func)[-1] in ("insert", "append", "insort", "pop", "sort"):
+                            raise Untranslatable(qual + ": list mutation inside a branch: " + text[:80])
+                    continue
+                # anything else that mutates one of the lists is not understood
+                for n in ast.walk(st):
+                    if isinstance(n, ast.Call) and attr_chain(n.func):
+                        c = attr_chain(n.func)
+                        if c[-1] in ("insert", "append", "insort", "insort_left", "insort_right",
+                                     "pop", "sort", "extend", "remove"):
+                            raise Untranslatable(qual + ": unexpected list mutation: " + text[:80])
+        visit(fn.body)
+        out.append("/-- oqupy/dynamics.py:%d  %s -/\ndef %s : List AddOp := [%s]\n"
+                   % (fn.lineno, qual, name, ", ".join(ops)))
+    helper = src.function("oqupy/dynamics.py", "_find_list_index")
+    rets = [n for n in ast.walk(helper) if isinstance(n, ast.Return)]
+    if len(rets) != 1 or ast.unparse(rets[0].value) != "bisect(sorted_list, entry_value)":
+        raise Untranslatable("_find_list_index is not `bisect(sorted_list, entry_value)`")
+    out.append("/-- `_find_list_index` is `bisect.bisect` (= bisect_right) -/\n"
+               "def find_list_index_is_bisect_right : Bool := true\n")
+    return "\n".join(out)
+
+
 def main():
     ap = argparse.ArgumentParser()
     ap.add_argument("--repo", default="/repo")
